@@ -6,7 +6,7 @@
    from the header layouts and the documented EtherType / IP protocol / UDP port tables.
    [agrees r e]: Parse returns an error exactly when the reference reports one, and on success the
    projection (PayloadID, MACs, IPs, ports, presence and start of IPv4/IPv6/UDP/TCP, payload start) is equal. *)
-From PV Require Import Base.Prelude Base.Slice Model.Parse Spec.RFC Model.ParseKnown Proofs.Parse Proofs.ParseRef.
+From PV Require Import Base.Prelude Base.Slice Model.Parse Spec.RFC Model.ParseKnown Proofs.Parse Proofs.ParseRef Proofs.ParseRefEq.
 From Coq Require Import String.
 Open Scope N_scope.
 
@@ -47,3 +47,33 @@ Theorem C02_parse_eq_ref_refuted_ip6_trailing :
               ~ agrees (parse c s) (ref_decode (view s)).
 Proof. exact eq_ref_refuted_ip6_trailing. Qed.
 Print Assumptions C02_parse_eq_ref_refuted_ip6_trailing.
+
+(* Outside the six classes (a decidable predicate on the bytes within the length), for every well-formed slice
+   of any capacity and spare contents, every session configuration, bytes < 256 and a frame shorter than 65536
+   bytes (uint16 wrap of IPv6 PayloadLen+40): Parse reports an error exactly when the reference decoder does,
+   and otherwise PayloadID, source/destination MAC, IP and port, presence and start offset of the IPv4 / IPv6 /
+   UDP / TCP views and the payload start are those of the reference decoder. *)
+Theorem C02_parse_eq_ref_partial : forall c s,
+  wf s -> bytes_ok (view s) -> N.of_nat (len s) < 65536 -> known_C02 (view s) = None ->
+  agrees (parse c s) (ref_decode (view s)).
+Proof. exact parse_eq_ref_partial. Qed.
+Print Assumptions C02_parse_eq_ref_partial.
+
+(* the UDP port switch of Parse is the documented rule table read in precedence order *)
+Theorem C02_udp_port_table : forall sp dp, udp_class sp dp = first_rule sp dp udp_rules.
+Proof. exact udp_class_table. Qed.
+Print Assumptions C02_udp_port_table.
+
+Example C02_parse_eq_ref_nonvacuous :
+  let s := of_bytes_cap ex_arp28 [170;170] in
+  wf s /\ bytes_ok (view s) /\ N.of_nat (len s) < 65536 /\ known_C02 (view s) = None /\
+  exists r, ref_decode (view s) = ROk r /\ r_id r = 3 /\ r_pay r = 14%nat.
+Proof. exact parse_eq_ref_nonvacuous. Qed.
+Print Assumptions C02_parse_eq_ref_nonvacuous.
+
+Example C02_parse_eq_ref_nonvacuous_dns :
+  known_C02 ex_dns = None /\
+  exists r, ref_decode ex_dns = ROk r /\ r_id r = 12 /\ r_ip4 r = Some 14%nat /\ r_udp r = Some 34%nat /\ r_pay r = 42%nat /\
+            r_sport r = 51200 /\ r_dport r = 53.
+Proof. exact parse_eq_ref_nonvacuous_dns. Qed.
+Print Assumptions C02_parse_eq_ref_nonvacuous_dns.
